@@ -504,13 +504,15 @@ def run(ctx):
 
     got = ctx.model('drv_c12', req)
     ndis = 0
+    perkey = {}
     nreq = {}
     for r, g, m in zip(req, got, meta):
         nreq[m[0]] = nreq.get(m[0], 0) + 1
         bad = compare(ctx, solvers, r, g, m, tabs)
         if bad:
             ndis += 1
-            if ndis <= 12:
+            perkey[bad[0]] = perkey.get(bad[0], 0) + 1
+            if perkey[bad[0]] <= 2:
                 key, what, replay, found = bad
                 replay.update({'request': r[:3000], 'model': g[:3000], 'stream': 'ode (drv_c12)'})
                 ctx.violation(key, what, replay, found)
